@@ -35,8 +35,11 @@ type LoadConfig struct {
 
 // World is the resolved program.
 type World struct {
-	SplitReturns int    // join-and-return blocks folded back into their predecessors (splitret.go)
-	InlineDescr  string // helpers inlined at source level ("" = program as written)
+	alias        map[*ssa.Function]string // renamed functions -> reference relative name (rename.go)
+	aliasObj     map[types.Object]string
+	Renamed      []string // what was resolved, for the evidence
+	SplitReturns int      // join-and-return blocks folded back into their predecessors (splitret.go)
+	InlineDescr  string   // helpers inlined at source level ("" = program as written)
 	useSites     map[*ssa.Function][]ssa.Instruction
 	Cfg          LoadConfig
 	Fset         *token.FileSet
@@ -182,6 +185,7 @@ func Load(cfg LoadConfig) (*World, error) {
 			}
 		}
 	}
+	w.resolveRenames()
 	w.indexCallSites()
 	curWorld = w
 	if len(w.Funcs) == 0 {
@@ -220,6 +224,9 @@ func (w *World) InPkg(fn *ssa.Function) bool { return fn != nil && w.funcSet[fn]
 func (w *World) Name(fn *ssa.Function) string {
 	if fn == nil {
 		return "<nil>"
+	}
+	if ref, ok := w.alias[fn]; ok {
+		return ref // a renamed reference function is reported and keyed under its reference name
 	}
 	return fn.RelString(w.Types)
 }
@@ -345,6 +352,17 @@ func (w *World) FuncDecl(recv, name string) *ast.FuncDecl {
 				if id, ok := t.(*ast.Ident); ok && id.Name == recv {
 					return fd
 				}
+			}
+		}
+	}
+	// a renamed reference function (rename.go)
+	for _, rel := range []string{name, "(*" + recv + ")." + name, "(" + recv + ")." + name} {
+		if recv == "" && rel != name {
+			continue
+		}
+		if fn := w.byName[rel]; fn != nil && w.alias[fn] != "" {
+			if fd, ok := fn.Syntax().(*ast.FuncDecl); ok {
+				return fd
 			}
 		}
 	}
@@ -563,7 +581,7 @@ func canonicaliseComparisons(fn *ssa.Function) {
 			}
 			return 2
 		case *ssa.Call:
-			if b, ok := x.Call.Value.(*ssa.Builtin); ok && b.Name() == "len" {
+			if b, ok := x.Call.Value.(*ssa.Builtin); ok && nm(b) == "len" {
 				return 3
 			}
 			return 2
